@@ -74,6 +74,7 @@ type FuncCtx struct {
 	outSt    map[*ssa.BasicBlock]*State
 	blockReach map[*ssa.BasicBlock]string
 	paramCell map[*ssa.Alloc]string
+	paramAlloc map[*ssa.Alloc]string
 	typeArgs map[string]types.Type
 }
 
@@ -274,9 +275,40 @@ func (fc *FuncCtx) readRoot(st *State, lv *LValue) string {
 	case lvHeapField:
 		return "(select " + fc.get(st, key) + " " + lv.Ref + ")"
 	case lvElem:
+		if lv.SliceT != "" {
+			return fc.at(lv.ElemTy, fc.get(st, key), lv.SliceT, lv.SliceI)
+		}
 		return "(select (select " + fc.get(st, key) + " " + lv.Base + ") " + lv.Idx + ")"
 	}
 	panic("bad lvalue")
+}
+
+// at is the accessor term for element i of slice s in element heap E. It is an
+// uninterpreted function with a definitional axiom so that quantified facts
+// about slice elements have clean E-matching patterns.
+func (fc *FuncCtx) at(et types.Type, E, s, i string) string {
+	so := fc.S.SortOf(et)
+	name := "at_" + sanitize(so)
+	if !fc.ghostDecl[name] {
+		fc.ghostDecl[name] = true
+		fc.specHdr = append(fc.specHdr, fmt.Sprintf("(declare-fun %s ((Array Int (Array Int %s)) Slice Int) %s)", name, so, so))
+		fc.specHdr = append(fc.specHdr, fmt.Sprintf("(assert (forall ((E (Array Int (Array Int %s))) (s Slice) (i Int)) (! (= (%s E s i) (select (select E (s-base s)) (+ (s-off s) i))) :pattern ((%s E s i)))))", so, name, name))
+	}
+	return "(" + name + " " + E + " " + s + " " + i + ")"
+}
+
+// atFrame asserts the accessor-level frame fact of an element-heap update:
+// at(Enew, s, i) = at(Eold, s, i) unless excl(base s, off s + i).
+func (fc *FuncCtx) atFrame(et types.Type, Eold, Enew string, excl func(b, ix string) string) {
+	if Eold == Enew {
+		return
+	}
+	fc.nfresh++
+	sv, iv := fmt.Sprintf("fs?%d", fc.nfresh), fmt.Sprintf("fj?%d", fc.nfresh)
+	a1 := fc.at(et, Enew, sv, iv)
+	a0 := fc.at(et, Eold, sv, iv)
+	ex := excl("(s-base "+sv+")", "(+ (s-off "+sv+") "+iv+")")
+	fc.emit("(assert (forall ((" + sv + " Slice) (" + iv + " Int)) (! " + implies(not(ex), "(= "+a1+" "+a0+")") + " :pattern (" + a1 + ") :pattern (" + a0 + "))))")
 }
 
 func (fc *FuncCtx) load(st *State, lv *LValue) string {
@@ -298,6 +330,9 @@ func (fc *FuncCtx) storePlain(st *State, lv *LValue, v string) {
 	case lvElem:
 		h := fc.get(st, key)
 		fc.set(st, key, "(store "+h+" "+lv.Base+" (store (select "+h+" "+lv.Base+") "+lv.Idx+" "+nv+"))")
+		fc.atFrame(lv.ElemTy, h, fc.get(st, key), func(b, ix string) string {
+			return "(and (= " + b + " " + lv.Base + ") (= " + ix + " " + lv.Idx + "))"
+		})
 	}
 }
 
@@ -619,7 +654,9 @@ func (fc *FuncCtx) discover(li *loopInfo, st *State, reach string) []string {
 	fc.outSt = saveOut
 	// inner loops keep their discovered modsets (they do not depend on the state)
 	for _, l2 := range fc.loopList {
-		l2.headSt, l2.preSt, l2.variant = nil, nil, ""
+		if l2 != li && li.Body[l2.Header] {
+			l2.headSt, l2.preSt, l2.variant = nil, nil, ""
+		}
 	}
 	return keys
 }
